@@ -5,8 +5,10 @@ package main
 import (
 	"bufio"
 	"bytes"
+	"encoding/binary"
 	"fmt"
 	"github.com/evanoberholster/imagemeta/imagetype"
+	"github.com/evanoberholster/imagemeta/png"
 	"github.com/evanoberholster/imagemeta/tiff"
 	"image"
 	"io"
@@ -185,6 +187,9 @@ func runC01(c *Ctx) error {
 func runC02(c *Ctx) error {
 	c.Res.Rule = "every decode entry point x the corpus of C01 (plain in-memory reader) under a watchdog, with an instrumented io.ReadSeeker: the call returns, requested bytes <= 4*len+64KiB, wall time within a generous per-byte budget. Non-trivial: every case."
 	if err := tiffReqCorrespondence(c); err != nil {
+		return err
+	}
+	if err := pngReqCorrespondence(c); err != nil {
 		return err
 	}
 	ins := corpus(c, c.N(40, 1500), c.N(300, 8000))
@@ -1058,14 +1063,26 @@ func tiffReqCorrespondence(c *Ctx) error {
 	for i, b := range ins {
 		src := &countingSrc{r: bytes.NewReader(b)}
 		var res string
-		p, fr, val := safely(func() {
-			h, err := tiff.ScanTiffHeader(src, imagetype.ImageUnknown)
-			if err != nil {
-				res = "err " + errKind(err)
-				return
-			}
-			res = fmt.Sprintf("ok %d %d %d", h.TiffHeaderOffset, int(h.ByteOrder), h.FirstIfdOffset)
-		})
+		var p bool
+		var fr, val string
+		done := make(chan struct{})
+		go func() {
+			p, fr, val = safely(func() {
+				h, err := tiff.ScanTiffHeader(src, imagetype.ImageUnknown)
+				if err != nil {
+					res = "err " + errKind(err)
+					return
+				}
+				res = fmt.Sprintf("ok %d %d %d", h.TiffHeaderOffset, int(h.ByteOrder), h.FirstIfdOffset)
+			})
+			close(done)
+		}()
+		select {
+		case <-done:
+		case <-time.After(3 * time.Second):
+			c.Violate(Case{Entry: "tiff.ScanTiffHeader", Input: hexs(b), Expected: "returns", Actual: "no return within 3 s", Kind: "hang", Class: "no-return"})
+			return nil
+		}
 		if p {
 			res = "panic " + val
 		}
@@ -1085,6 +1102,83 @@ func tiffReqCorrespondence(c *Ctx) error {
 		}
 		if src.req > 4*len(b)+65536 {
 			c.Violate(Case{Entry: "tiff.ScanTiffHeader", Input: hexs(b), Expected: fmt.Sprintf("requested <= %d", 4*len(b)+65536), Actual: fmt.Sprintf("requested %d in %d reads", src.req, src.reads), Kind: "wrong-value", Class: "superlinear-reads"})
+		}
+	}
+	return nil
+}
+
+// countingRS: an in-memory io.ReadSeeker that counts what it is asked for.
+type countingRS struct {
+	r          *bytes.Reader
+	req, reads int
+}
+
+func (s *countingRS) Read(p []byte) (int, error) {
+	s.req += len(p)
+	s.reads++
+	return s.r.Read(p)
+}
+func (s *countingRS) Seek(off int64, whence int) (int64, error) { return s.r.Seek(off, whence) }
+
+// pngReqCorrespondence ties the request count of the Lean model of the PNG chunk walk (Png.scanReq, theorem
+// C02_png_requested) to png.ScanPngHeader on a counting in-memory source.
+func pngReqCorrespondence(c *Ctx) error {
+	sig := []byte("\x89PNG\r\n\x1a\n")
+	chunk := func(t string, n uint32, p []byte) []byte {
+		b := binary.BigEndian.AppendUint32(nil, n)
+		return append(append(b, []byte(t)...), p...)
+	}
+	var ins [][]byte
+	for i := 0; i < c.N(400, 20000); i++ {
+		b := append([]byte{}, sig...)
+		for k := 0; k < c.Rng.Intn(6); k++ {
+			n := c.Rng.Intn(40)
+			decl := uint32(n)
+			if c.Rng.Intn(6) == 0 {
+				decl = []uint32{0, 1, 0xfffffff4, 0xfffffffc, 0x7fffffff, uint32(n + 3), 1000}[c.Rng.Intn(7)]
+			}
+			b = append(b, chunk([]string{"IHDR", "tEXt", "IDAT", "zTXt"}[c.Rng.Intn(4)], decl, make([]byte, n+4))...)
+		}
+		if c.Rng.Intn(2) == 0 {
+			b = append(b, chunk("eXIf", 16, []byte("II*\x00\x08\x00\x00\x00\x00\x00\x00\x00\x00\x00\x00\x00\x00\x00\x00\x00"))...)
+		}
+		if c.Rng.Intn(3) == 0 && len(b) > 0 {
+			b = b[:c.Rng.Intn(len(b)+1)]
+		}
+		ins = append(ins, b)
+	}
+	reqs := make([]string, len(ins))
+	for i, b := range ins {
+		reqs[i] = "png.req " + hexs(b)
+	}
+	model, err := drv.Batch(reqs)
+	if err != nil {
+		return err
+	}
+	for i, b := range ins {
+		src := &countingRS{r: bytes.NewReader(b)}
+		var p bool
+		var fr string
+		done := make(chan struct{})
+		go func() { p, fr, _ = safely(func() { png.ScanPngHeader(src) }); close(done) }()
+		select {
+		case <-done:
+		case <-time.After(3 * time.Second):
+			// the walk does not come back (the goroutine is abandoned): reported, the comparison ends here
+			c.Violate(Case{Entry: "png.ScanPngHeader", Input: hexs(b), Expected: "returns", Actual: "no return within 3 s", Kind: "hang", Class: "no-return"})
+			return nil
+		}
+		c.Count("pngReq "+fmt.Sprint(fnv32(b), len(b)), len(b) >= 8)
+		c.Stat("pngreq.compared")
+		got := fmt.Sprintf("req=%d", src.req)
+		if p {
+			got = "panic"
+		}
+		if got != model[i] {
+			c.Disagree(Case{Entry: "png.ScanPngHeader", Input: hexs(b), Expected: model[i], Actual: got, Frame: fr, Note: "correspondence Png.scanReq (request count) vs png.ScanPngHeader on a counting in-memory source"})
+		}
+		if src.req > 4*len(b)+65536 {
+			c.Violate(Case{Entry: "png.ScanPngHeader", Input: hexs(b), Expected: fmt.Sprintf("requested <= %d", 4*len(b)+65536), Actual: fmt.Sprintf("requested %d in %d reads", src.req, src.reads), Kind: "wrong-value", Class: "superlinear-reads"})
 		}
 	}
 	return nil
